@@ -33,10 +33,10 @@ def _explicit_sets(T):
 
 # ------------------------------------------------------------------------------------------------ series pairs / triples
 
-def gen_pairs(T, k, masks):
+def gen_pairs(T, k, masks, quick=False):
     V = tm.series_variants(T, masks)
     for combo in itertools.product(range(len(V)), repeat=k):
-        yield {'T': T, 'v': [V[i] for i in combo]}
+        yield {'T': T, 'v': [V[i] for i in combo], 'quick': quick}
 
 
 def _check_seq_result(out, res, models, days, method, label, sig, containers_like=None):
@@ -155,6 +155,8 @@ def check_series(case):
                             ('call-allkw', lambda ss: f(join=how, method=method, **dict(zip('abc', ss))))]
                 if method in (None, 'ffill'):
                     variants.append(('prop', lambda ss: (getattr(f, how).ffill if method == 'ffill' else getattr(f, how))(*ss)))
+                if method == 'bfill' and case.get('quick'):
+                    variants = variants[1:2] + variants[3:4]          # quick tier: bfill through the call-time spellings only (ffill / None run all of them)
                 for vname, g in variants:
                     out.sub()
                     ss = fresh()
@@ -461,12 +463,12 @@ def suites(tier, seed):
     pm = ['none', 'first', 'interior'] if q else tm.MASKS
     tT, tm3 = (3, ['none']) if q else (4, ['none', 'interior'])
     S = [
-        Suite('series_pairs', lambda: gen_pairs(T, 2, pm), check_series,
+        Suite('series_pairs', lambda: gen_pairs(T, 2, pm, q), check_series,
               rule='all ordered pairs of Series over every index subset of a %d-day timeline x NaN patterns %s; every join policy (ij,oj,lj,rj,inner,outer, '
                    '4 explicit indices, explicit timeseries) x fill method (None,ffill,bfill) through df_index, df_sync(list/dict), df_reindex and presync '
                    '(decorator / call-time / keyword / property spellings); non-trivial = index sets differ and the intersection is smaller than the union' % (T, pm),
               bounds=dict(days=T, members=2, nan_patterns=pm)),
-        Suite('series_triples', lambda: gen_pairs(tT, 3, tm3), check_series,
+        Suite('series_triples', lambda: gen_pairs(tT, 3, tm3, q), check_series,
               rule='all ordered triples of Series over every index subset of a %d-day timeline (NaN patterns %s), same entry points' % (tT, tm3),
               bounds=dict(days=tT, members=3, nan_patterns=tm3)),
         Suite('nested', lambda: gen_nested(3 if q else 4), check_nested,
